@@ -1,9 +1,9 @@
 package props
 
 import (
-	"go/types"
-	"go/constant"
 	"fmt"
+	"go/constant"
+	"go/types"
 	"strings"
 
 	"golang.org/x/tools/go/ssa"
